@@ -1923,6 +1923,97 @@ def rule_error_owner(prog):
     return out
 
 
+# ------------------------------------------------------------------ ERR-FRAME
+
+def rule_err_frame(prog):
+    """Every syntax error the parser creates carries a token range *relative to the Reference being parsed* (ErrorContainer::errors
+    shifts it by the offsets of the References it crosses on the way up).  The stream position `location_offset()` is absolute: where
+    an error position is computed from it, `reference_pos` is subtracted."""
+    out = Out("ERR-FRAME")
+    c = prog.front
+    n = 0
+    for b in c.bodies:
+        f_ = c.file_of(b["sp"])
+        if not (f_.endswith("src/parser.rs") or "/parser/" in f_) or "/tests" in f_:
+            continue
+        defs = {}
+        for l in hir.nodes(b["body"], "Let"):
+            if l.get("init") is not None:
+                for bd in hir.pat_bindings(l["pat"]):
+                    defs[bd["id"]] = l["init"]
+        for call in hir.nodes(b["body"], "Call"):
+            d = hir.path_def(call["f"])
+            is_err = bool(d) and (d.get("ctor_of") or "") == "spl_frontend::error::SplError"
+            is_info = (hir.callee_display(call) or "").endswith("ast::AstInfo::new") or (hir.callee(call) or "").endswith("AstInfo::new")
+            if not (is_err or is_info) or not call["args"]:
+                continue
+            roots, seen = [call["args"][0]], set()
+            uses_abs = None
+            subtracts = False
+            while roots:
+                r = roots.pop()
+                for x in hir.nodes(r):
+                    if x.get("k") == "MethodCall" and x["m"] == "location_offset":
+                        uses_abs = x
+                    if x.get("k") == "Field" and x["name"] == "reference_pos":
+                        subtracts = True
+                    pl = hir.path_local(x)
+                    if pl and pl["id"] in defs and pl["id"] not in seen:
+                        seen.add(pl["id"])
+                        roots.append(defs[pl["id"]])
+            if uses_abs is None:
+                continue
+            n += 1
+            out.add(b["d"], "a %s position computed from the stream position is made relative to the current Reference" % ("diagnostic" if is_err else "node"), subtracts,
+                    c.loc(call["sp"]), "the range of this SplError is computed from `location_offset()` (absolute token index) without subtracting "
+                    "`reference_pos`: every Reference on the way up adds its offset again, so outside the first declaration the diagnostic lands "
+                    "on a later token - possibly in another declaration, or behind the end of the token list", ("frame",))
+    if n < 2:
+        out.missing("SplError positions computed from location_offset() in the parser (found %d)" % n)
+    # table entries: `range` is the token range of the whole declaration (`decl.to_range().shift(offset)`), because `name` (cloned from
+    # the declaration) is relative to the declaration's first token - leading doc comments included.  The handlers cut
+    # `tokens[entry.range]` and resolve `entry.name` inside that slice; an entry range that starts anywhere else shifts every name
+    # (or runs out of the slice: panic)
+    n_e = 0
+    for b in c.bodies:
+        if not b["p"].startswith("spl_frontend::table::build") or "/tests" in c.file_of(b["sp"]):
+            continue
+        defs = {}
+        for l in hir.nodes(b["body"], "Let"):
+            if l.get("init") is not None:
+                for bd in hir.pat_bindings(l["pat"]):
+                    defs[bd["id"]] = l["init"]
+        for st in hir.nodes(b["body"], "Struct"):
+            if last(st.get("adt") or "") not in ("TypeEntry", "ProcedureEntry", "VariableEntry"):
+                continue
+            f = {x["name"]: x["e"] for x in st["fields"]}
+            if "range" not in f:
+                continue
+            e = hir.strip(f["range"])
+            pl = hir.path_local(e)
+            hops = 0
+            while pl and pl["id"] in defs and hops < 4:
+                e = hir.strip(defs[pl["id"]])
+                pl = hir.path_local(e)
+                hops += 1
+            ok = None
+            if e.get("k") == "MethodCall" and e["m"] == "shift":
+                rv = hir.strip(e["recv"])
+                ok = rv.get("k") == "MethodCall" and rv["m"] == "to_range"
+            elif e.get("k") == "Struct" and (e.get("adt") or "").startswith("core::ops::range::Range"):
+                ok = False
+            elif e.get("k") == "MethodCall" and e["m"] == "to_range":
+                ok = None
+            n_e += 1
+            out.add(b["d"], "the range of a %s is the token range of its whole declaration" % last(st.get("adt")), ok, c.loc(st["sp"]),
+                    "the entry's range is put together by hand instead of `decl.to_range().shift(offset)`: `name` stays relative to the first "
+                    "token of the declaration (doc comments included), so go-to resolves the name in a slice that starts elsewhere - a wrong "
+                    "token, or an index out of the slice and a dead server", ("entry",))
+    if n_e < 3:
+        out.missing("table entry literals with a range in table::build (found %d)" % n_e)
+    return out
+
+
 # ------------------------------------------------------------------ RECURSION-BOUND
 
 def rule_recursion_bound(prog):
